@@ -111,6 +111,37 @@ def eval_case(case):
             save_doc(d2, p3)
             fails += check_package(p3, p, f"repeated save of second generation of {name}")
             npk += 1
+        elif kind == "lagging":
+            # source whose recorded high-water mark lags behind its real highest identifier (rewritten with mc.pkg)
+            from mc import pkg
+
+            path = case[1]
+            members = pkg.read_members(path)
+            ids = sorted(pkg.decode_objects(members, strict=False))
+            low = ids[len(ids) // 2]
+
+            def lower(name, m, ident):
+                if name == "TSP.PackageMetadata":
+                    m.last_object_identifier = low
+                    return True
+                return False
+
+            psrc = _tmp("lagsrc")
+            tmp.append(psrc)
+            pkg.write_members(psrc, pkg.transform(members, lower))
+            d, _ = open_doc(psrc)
+            t = d.sheets[0].tables[0]
+            t.write(0, 0, "edited")
+            if t.num_rows >= 2 and t.num_cols >= 2 and not t.merge_ranges:
+                t.merge_cells("A1:B1")
+            d.sheets[0].add_table("Lag table", num_rows=2, num_cols=2)
+            st = d.add_style(name="Lag style", bold=True)
+            d.sheets[0].tables[-1].write(0, 0, "x", style=st)
+            p = _tmp("lag")
+            tmp.append(p)
+            save_doc(d, p)
+            fails += check_package(p, psrc, f"document with lagging object counter ({os.path.basename(path)})")
+            npk += 1
         elif kind == "shape":
             _, nr, nc = case
             d = shape_doc(nr, nc)
@@ -207,6 +238,8 @@ def cases(tier):
         cs.append(["resave", p] + (["package"] if n < 200 else []))
     for name in gen_docs.names():
         cs.append(["gen", name])
+    for p in [TEMPLATE] + [os.path.join(FIXTURES, f) for f in ("test-1.numbers", "issue-3.numbers", "test-save-1.numbers", "issue-77.numbers")]:
+        cs.append(["lagging", p])
     rows = [1, 255, 256, 257, 512, 513]
     cols = [1, 256, 257, 1000]
     for nr in rows:
